@@ -115,3 +115,21 @@ def slot_queries(pid, entries, quickmax, thoroughmax, extra=None, nmin=1, extra_
 def c03():
     return slot_queries("C03", ["vh_reverse", "vh_delete_gc", "vh_insert", "vh_put_copy", "vh_temp_copy", "vh_next", "vh_append", "vh_associate"], 3, 5) + \
            [Q("setglyph", "slots.cpp", "vh_setglyph", {"NS": 1}, unwind=8)]
+
+# ------------------------------------------------------------------------------------------- C12
+META["C12"] = {
+    "bounds": "Segment::read_text (the only consumer of the text in gr_make_seg) on NUL-terminated exact-size heap buffers: 0..3 code units before the NUL (thorough 4) x 3 encodings x nChars = true count + 0..2; all contents; arbitrary cmap",
+    "outside": "longer texts (the loop body is memoryless apart from the iterator state decided in C11); gr_make_seg's later stages (runGraphite/finalise) do not touch the text",
+    "assumptions": ["cmap lookups return arbitrary glyph ids (virtual stub)", "encoded surrogates excluded as in C11"],
+}
+def text_queries(extras, lens_quick, lens_thorough):
+    qs = []
+    for enc in (8, 16, 32):
+        for n in range(0, lens_thorough + 1):
+            for x in extras:
+                tiers = ("quick", "thorough") if n <= lens_quick else ("thorough",)
+                qs.append(Q(f"read_text_u{enc}_len{n}_extra{x}", "text.cpp", "vh_read_text", {"ENC": enc, "LEN": n, "EXTRA": x}, unwind=n + x + 6, tiers=tiers))
+    return qs
+@prop("C12")
+def c12():
+    return text_queries((0, 1, 2), 2, 3)
